@@ -40,7 +40,7 @@ type CacheScn struct {
 	// clock (chosen beyond the TTL so that the clients meet expired entries), then the clients start
 	Pre        []CacheOp `json:"pre,omitempty"`
 	PreSleepNs int64     `json:"pre_sleep_ns,omitempty"`
-	Sched   SchedCfg    `json:"sched"`
+	Sched      SchedCfg  `json:"sched"`
 }
 
 // ---- exact reference: lazy-expiry TTL-LRU (expired entries stay until looked up) ----
